@@ -116,6 +116,10 @@ def _under(ctx, rid, gate, an, var, oracle, func):
                 mv = v
         elif isinstance(e, ast.Compare) and isinstance(e.left, ast.Name) and isinstance(st.get(e.left.id), MatchV):
             mv = st[e.left.id]
+        elif isinstance(e, ast.Compare) and isinstance(e.left, ast.Call):
+            v = it.eval(an, e.left, st, n)
+            if isinstance(v, MatchV):
+                mv = v
         if mv is None or mv.var != var or mv.subject is None:
             continue
         n_g += 1
@@ -409,3 +413,40 @@ def thorough(ctx):
 RULES = [rule_g1, rule_g2_g3, rule_g4, rule_g5, rule_uses]
 THOROUGH = [thorough]
 LEVEL = "other"
+
+from ..selftest import M, T, V  # noqa: E402
+
+selftest = [
+    M("hexdig-dollar", "rfc7230.py", 'HEXDIG + r"+\\Z"', 'HEXDIG + "+$"', "G2"),
+    M("chunkext-dollar", "rfc7230.py", 'CHUNK_EXT + r"\\Z"', 'CHUNK_EXT + "$"', "G3"),
+    M("digit-star", "rfc7230.py", '("^" + DIGIT + "+$")', '("^" + DIGIT + "*$")', "G1"),
+    M("hexdig-underscore", "rfc7230.py", 'HEXDIG = "[0-9a-fA-F]"', 'HEXDIG = "[0-9a-fA-F_]"', "G2"),
+    T("hexdig-search-anchored", "receiver.py", "ONLY_HEXDIG_RE.match(line)", "ONLY_HEXDIG_RE.search(line)"),
+    V("hexdig-search-unanchored", "mutant", [("receiver.py", "ONLY_HEXDIG_RE.match(line)", "ONLY_HEXDIG_RE.search(line)"), ("rfc7230.py", '("^" + HEXDIG + r"+\\Z")', '(HEXDIG + r"+\\Z")')], "G2"),
+    M("hexdig-noanchor", "rfc7230.py", '("^" + HEXDIG + r"+\\Z")', '("^" + HEXDIG + "+")', "G2"),
+    M("firstline-match", "parser.py", "first_line_re.fullmatch(line)", "first_line_re.match(line)", "G5"),
+    M("cl-prestrip", "parser.py", 'cl = headers.get("CONTENT_LENGTH", "0")', 'cl = headers.get("CONTENT_LENGTH", "0").strip()', "G1"),
+    M("no-crlf-check-lines", "parser.py", 'if b"\\r" in line or b"\\n" in line:\n            raise ParsingError(\n                \'Bare CR', 'if False:\n            raise ParsingError(\n                \'Bare CR', "over"),
+    M("only-cr-check-lines", "parser.py", 'if b"\\r" in line or b"\\n" in line:\n            raise ParsingError(\n                \'Bare CR', 'if b"\\r" in line:\n            raise ParsingError(\n                \'Bare CR', "trailing-LF"),
+    M("int-base-0", "receiver.py", "sz = int(line, 16)", "sz = int(line, 0)", "G2"),
+    M("ext-unvalidated", "receiver.py", "if not valid_ext_info:", "if False:", "G3"),
+    M("ext-dropped", "receiver.py", "extinfo = line[semi:]\n                            valid_ext_info = CHUNK_EXT_RE.match(extinfo)", "valid_ext_info = True", "G3"),
+    M("token-space", "rfc7230.py", 'TCHAR = r"[!#$%&\'*+\\-.^_`|~0-9A-Za-z]"', 'TCHAR = r"[ !#$%&\'*+\\-.^_`|~0-9A-Za-z]"', "G4"),
+    M("ws-before-colon", "rfc7230.py", '"^(?P<name>" + TOKEN + "):" + OWS', '"^(?P<name>" + TOKEN + ")" + OWS + ":" + OWS', "G4"),
+    M("firstline-rstrip", "parser.py", "first_line = header_plus[:index]\n", "first_line = header_plus[:index].rstrip()\n", "G5"),
+    M("head-lstrip", "parser.py", 'while header_plus.startswith(b"\\r\\n"):\n                    header_plus = header_plus[2:]', "header_plus = header_plus.lstrip()", "G5"),
+    M("nomatch-accepted", "parser.py", 'if command == uri == version == b"":\n            raise ParsingError("Start line is invalid")', "pass", "G5"),
+    M("uri-any", "parser.py", "rb\"[\\x21-\\x7e\\x80-\\xff]+)\"", "rb\"[^ ]+)\"", "G5"),
+    M("digit-backslash-d-str", "rfc7230.py", 'ONLY_DIGIT_RE = re.compile(("^" + DIGIT + "+$").encode("latin-1"))', 'ONLY_DIGIT_RE = re.compile(rb"^[0-9 ]+$")', "G1"),
+    M("version-loose", "parser.py", 'rb"(?: HTTP/(?P<version>[0-9]\\.[0-9]))?"', 'rb"(?: HTTP/(?P<version>[0-9]+\\.[0-9]+))?"', "G5"),
+    T("token-plus", "rfc7230.py", 'TOKEN = TCHAR + "{1,}"', 'TOKEN = TCHAR + "+"'),
+    T("digit-fullmatch", "parser.py", "ONLY_DIGIT_RE.match(cl.encode", "ONLY_DIGIT_RE.fullmatch(cl.encode"),
+    T("digit-Z", "rfc7230.py", '("^" + DIGIT + "+$")', '("^" + DIGIT + r"+\\Z")'),
+    T("hexdig-reorder", "rfc7230.py", 'HEXDIG = "[0-9a-fA-F]"', 'HEXDIG = "[a-fA-F0-9]"'),
+    T("hexdig-fullmatch", "receiver.py", "ONLY_HEXDIG_RE.match(line)", "ONLY_HEXDIG_RE.fullmatch(line)"),
+    T("ows-greedy", "rfc7230.py", 'OWS = WS + "{0,}?"', 'OWS = WS + "*"'),
+    T("firstline-anchored", "parser.py", 'rb"(?P<method>[!#$%&', 'rb"^(?P<method>[!#$%&'),
+    T("digit-class-d", "rfc7230.py", 'DIGIT = "[0-9]"', 'DIGIT = "\\\\d"'),
+    T("crlf-check-split", "parser.py", 'if b"\\r" in line or b"\\n" in line:\n            raise ParsingError(\n                \'Bare CR or LF found in header line "%s"\' % str(line, "latin-1")\n            )', 'if b"\\n" in line:\n            raise ParsingError("Bare LF")\n        if b"\\r" in line:\n            raise ParsingError("Bare CR")'),
+    T("match-is-none", "receiver.py", "if not ONLY_HEXDIG_RE.match(line):", "if ONLY_HEXDIG_RE.match(line) is None:"),
+]
